@@ -68,8 +68,8 @@ def make_batch(case):
     return beta, alt, E, lat, lon
 
 
-def reference(det, beta, alt, E, lat, lon):
-    k = kernel(det)
+def reference(det, beta, alt, E, lat, lon, dtype="float32"):
+    k = kernel(det, dtype)
     with quiet():
         res = [k.run(b, a, e, la, lo, None) for b, a, e, la, lo in zip(beta, alt, E, lat, lon)]
     d, c = zip(*res)
@@ -176,9 +176,18 @@ def body_equal(case):
     det = case["det"]
     beta, alt, E, lat, lon = make_batch(case)
     n = len(beta)
-    want_d, want_c = reference(det, beta, alt, E, lat, lon)
-    k = kernel(det)
+    # the kernel object is built in single precision (production) or, through the guarded hook, in double precision;
+    # the hook is only in the environment while the object is constructed - whatever evaluates the batch (threads,
+    # worker processes that receive a pickled copy) has to work with the object it was given
+    dtype = case.get("dtype", "float32")
+    want_d, want_c = reference(det, beta, alt, E, lat, lon, dtype)
+    k = kernel(det, dtype)
     before = _state(k)
+    import cloudpickle
+
+    with cut("pickled copy of the kernel object (what a worker process receives)"):
+        copy_state = _state(cloudpickle.loads(cloudpickle.dumps(k)))
+    require(copy_state == before, f"the pickled copy of the kernel object that worker processes receive differs from the object: {[a for a in before if copy_state.get(a) != before.get(a)]}")
     snap = [a.tobytes() for a in (beta, alt, E, lat, lon)]
     sched = Schedule(case, k, n)
     with quiet():
@@ -188,7 +197,8 @@ def body_equal(case):
     require([a.tobytes() for a in (beta, alt, E, lat, lon)] == snap, "the batch call modified its input arrays")
     got_d, got_c = np.asarray(got_d), np.asarray(got_c)
     labels, psize, nparts = _labels(case, n, sched.executed)
-    desc = f"{n} events, partition size {psize} ({nparts} partitions), scheduler {case['sched']}" + (f" order {sched.executed[:: max(1, psize)][:12]}" if sched.executed else "")
+    labels.add("kernel_" + dtype)
+    desc = f"{n} events, partition size {psize} ({nparts} partitions), scheduler {case['sched']}, {dtype} kernel" + (f" order {sched.executed[:: max(1, psize)][:12]}" if sched.executed else "")
     require(got_d.shape == (n,) and got_c.shape == (n,), f"batch returned shapes {got_d.shape}, {got_c.shape} ({desc})")
     require(got_d.dtype == want_d.dtype and got_c.dtype == want_c.dtype, f"batch returned dtypes {got_d.dtype}, {got_c.dtype}; one-at-a-time gives {want_d.dtype}, {want_c.dtype}")
     bad = np.where((got_d.view(np.uint8).reshape(n, -1) != want_d.view(np.uint8).reshape(n, -1)).any(axis=1) | (got_c.view(np.uint8).reshape(n, -1) != want_c.view(np.uint8).reshape(n, -1)).any(axis=1))[0]
@@ -245,6 +255,7 @@ def batch_strategy(max_n, scheds):
             "sched": st.sampled_from(scheds),
             "prio": st.permutations(list(range(40))),
             "workers": st.integers(1, 16),
+            "dtype": st.sampled_from(["float32", "float64"]),
         }
     )
 
